@@ -192,27 +192,30 @@ func (v *Version) Compare(other *Version) int {
 		return compareInt(v.patch, other.patch)
 	}
 
-	// Handle pseudo-version comparison
-	if v.pseudo != nil && other.pseudo != nil {
-		return v.pseudo.timestamp.Compare(other.pseudo.timestamp)
-	}
-	if v.pseudo != nil && other.pseudo == nil {
-		// Pseudo-versions are pre-release, so they come before releases
-		if other.prerelease == "" {
-			return -1
-		}
-		// Compare with prerelease
-		return comparePrerelease("pseudo", other.prerelease)
-	}
-	if v.pseudo == nil && other.pseudo != nil {
-		if v.prerelease == "" {
-			return 1
-		}
-		return comparePrerelease(v.prerelease, "pseudo")
+	// A pseudo-version is an ordinary SemVer pre-release (e.g. "0.20170915032832-14c0d48ead0c"),
+	// so it is ordered against other pre-releases by SemVer precedence.
+	if v.pseudo != nil || other.pseudo != nil {
+		return comparePrerelease(v.prereleaseText(), other.prereleaseText())
 	}
 
 	// Compare prerelease according to semver rules
 	return comparePrerelease(v.prerelease, other.prerelease)
+}
+
+// prereleaseText returns the SemVer pre-release part of the version. For pseudo-versions it is
+// taken from the original text (after the first '-', without build metadata).
+func (v *Version) prereleaseText() string {
+	if v.pseudo == nil {
+		return v.prerelease
+	}
+	text := strings.TrimSpace(v.original)
+	if i := strings.Index(text, "+"); i != -1 {
+		text = text[:i]
+	}
+	if i := strings.Index(text, "-"); i != -1 {
+		return text[i+1:]
+	}
+	return ""
 }
 
 // String returns the string representation of the version
@@ -233,34 +236,45 @@ func compareInt(a, b int) int {
 
 // comparePrerelease returns -1, 0, or 1 comparing prereleases where empty string (release) > any prerelease
 func comparePrerelease(a, b string) int {
-	// No prerelease (release) has higher precedence than prerelease
 	if a == "" && b == "" {
 		return 0
 	}
 	if a == "" {
-		return 1
+		return 1 // No prerelease > prerelease
 	}
 	if b == "" {
-		return -1
+		return -1 // Prerelease < no prerelease
 	}
 
-	// Special handling for pseudo-versions
-	if a == "pseudo" && b != "pseudo" {
-		return -1
-	}
-	if a != "pseudo" && b == "pseudo" {
-		return 1
-	}
-	if a == "pseudo" && b == "pseudo" {
-		return 0
+	// SemVer 2.0.0 section 11: compare dot-separated identifiers from left to right
+	aParts := strings.Split(a, ".")
+	bParts := strings.Split(b, ".")
+	for i := 0; i < len(aParts) && i < len(bParts); i++ {
+		aPart, bPart := aParts[i], bParts[i]
+		if aPart == bPart {
+			continue
+		}
+		aIsNum := strings.Trim(aPart, "0123456789") == ""
+		bIsNum := strings.Trim(bPart, "0123456789") == ""
+		switch {
+		case aIsNum && bIsNum:
+			// Numeric identifiers compare numerically (no leading zeros: longer is larger)
+			aPart, bPart = strings.TrimLeft(aPart, "0"), strings.TrimLeft(bPart, "0")
+			if len(aPart) != len(bPart) {
+				return compareInt(len(aPart), len(bPart))
+			}
+			if aPart != bPart {
+				return strings.Compare(aPart, bPart)
+			}
+		case aIsNum:
+			return -1 // Numeric identifiers have lower precedence than alphanumeric ones
+		case bIsNum:
+			return 1
+		default:
+			return strings.Compare(aPart, bPart)
+		}
 	}
 
-	// Lexicographic comparison for prereleases
-	if a < b {
-		return -1
-	}
-	if a > b {
-		return 1
-	}
-	return 0
+	// A larger set of identifiers has higher precedence when all preceding ones are equal
+	return compareInt(len(aParts), len(bParts))
 }
